@@ -135,6 +135,46 @@ pub fn call(e: &mut Encoder, sink: ESink, repl: bool, src: &Src, cap: usize, las
     o
 }
 
+/// The documented manual procedure (C09) on the units the with-replacement call consumed: the caller's own loop over
+/// the without-replacement method with an ample buffer, appending "&#" decimal ";" for every Unmappable result.
+/// res 'X' = the without-replacement method reported OutputFull although the buffer is ample.
+pub fn call_manual(e: &mut Encoder, src: &Src, last: bool) -> EObs {
+    let n = match src {
+        Src::U8(s) => s.len(),
+        Src::U16(s) => s.len(),
+    };
+    let mut o = EObs { same: true, guard: true, cap: 8 * n + 64, ..Default::default() };
+    loop {
+        let rest = match src {
+            Src::U8(s) => Src::U8(&s[o.read.min(n)..]),
+            Src::U16(s) => Src::U16(&s[o.read.min(n)..]),
+        };
+        let c = call(e, ESink::Slice, false, &rest, 8 * n + 64, last, 0x5A, 0);
+        o.guard &= c.guard;
+        if c.res == 'P' {
+            o.res = 'P';
+            return o;
+        }
+        o.read += c.read;
+        o.out.extend_from_slice(&c.out);
+        match c.res {
+            'U' => {
+                o.had = true;
+                o.out.extend_from_slice(format!("&#{};", c.um).as_bytes());
+            }
+            'O' => {
+                o.res = 'X';
+                return o;
+            }
+            r => {
+                o.res = r;
+                o.written = o.out.len();
+                return o;
+            }
+        }
+    }
+}
+
 pub fn query(e: &Encoder, source: Source, repl: bool, n: usize) -> Option<usize> {
     let r = catch_unwind(AssertUnwindSafe(|| match (source, repl) {
         (Source::Utf8, true) => e.max_buffer_length_from_utf8_if_no_unmappables(n),
@@ -195,6 +235,7 @@ pub fn prepare(items: &[u32], source: Source) -> Text {
 pub struct EHist<'a> {
     pub cfg: &'a EHistCfg,
     pub encs: Vec<Encoder>,
+    pub man: Option<Encoder>, // twin driven by the manual procedure (--manual, replacement histories)
     pub pos: usize, // consumed units
     pub calls: usize,
     pub dead: bool,
@@ -220,7 +261,8 @@ impl<'a> EHist<'a> {
             cfg.repl,
             bound
         ));
-        EHist { cfg, encs, pos: 0, calls: 0, dead: false, line: String::new() }
+        let man = if ov().manual && cfg.repl { Some(cfg.enc.new_encoder()) } else { None };
+        EHist { cfg, encs, man, pos: 0, calls: 0, dead: false, line: String::new() }
     }
 
     /// one call with src = units[pos..end] (end = a unit offset on an item boundary)
@@ -247,6 +289,17 @@ impl<'a> EHist<'a> {
         }
         let o = obs[0].clone();
         let pending = catch_unwind(AssertUnwindSafe(|| self.encs[0].has_pending_state())).unwrap_or(false);
+        let man = match self.man.as_mut() {
+            Some(e) if o.res != 'P' && o.read <= n => {
+                let consumed = match cfg.source {
+                    Source::Utf8 if text.u8s.is_char_boundary(self.pos + o.read) => Some(Src::U8(&text.u8s[self.pos..self.pos + o.read])),
+                    Source::Utf8 => None,
+                    Source::Utf16 => Some(Src::U16(&text.u16s[self.pos..self.pos + o.read])),
+                };
+                consumed.map(|c| call_manual(e, &c, last && o.res == 'I'))
+            }
+            _ => None,
+        };
         let s = &mut self.line;
         s.clear();
         s.push_str("{\"ev\":\"E\",\"src\":");
@@ -266,6 +319,16 @@ impl<'a> EHist<'a> {
             s.push('}');
         }
         s.push(']');
+        if let Some(mo) = &man {
+            let _ = write!(s, ",\"man\":{{\"res\":\"{}\",\"had\":{},\"out\":", mo.res, mo.had);
+            js_u8(s, &mo.out);
+            s.push('}');
+            if mo.res != 'I' {
+                self.man = None;
+            }
+        } else if self.man.is_some() {
+            self.man = None; // the twin cannot follow (panic or a read that is not on a character boundary)
+        }
         if cfg.sink == ESink::Vec_ {
             s.push_str(",\"pre\":");
             js_u8(s, &o.pre);
